@@ -190,8 +190,9 @@ for _I, _V in enumerate(betas):
     _REST = x - thresholds[_I + 1]
 return _T
 """
-    b2 = find(pfn.node, "_REST = __A if __C else __B\n" + LOOP)
-    b1 = find(pfn.node, "_REST = __INIT\n" + LOOP) if b2 is None else None
+    LOOP2 = LOOP.replace("\n_T = 0\n", "\n", 1)
+    b2 = find(pfn.node, "_REST = __A if __C else __B\n" + LOOP) or find(pfn.node, "_T = 0\n_REST = __A if __C else __B\n" + LOOP2)
+    b1 = (find(pfn.node, "_REST = __INIT\n" + LOOP) or find(pfn.node, "_T = 0\n_REST = __INIT\n" + LOOP2)) if b2 is None else None
     if b1 is None and b2 is None:
         ctx.shape('C17.R6', 'piecewise_function:segments', False, pfn, '', 'rest = <initial distance>; total = 0; for each beta: stop with beta_i * rest when the next threshold is open or beyond x, else add beta_i * (t_i+1 - t_i) and rest = x - t_i+1')
     else:
